@@ -71,7 +71,12 @@
 	    (((msg)->m_body.ch_len != 0) ==> CH_OFF(&(msg)->m_body) == g_off0 + 4 * (size_t) (i)) && \
 	    ((g_k < 4 * (size_t) (i)) ==> HDR(msg)[(h0) + g_k] == g_b) &&     \
 	    ((g_k >= 4 * (size_t) (i) && g_k < g_len0) ==> (msg)->m_body.ch_ptr[g_k - 4 * (size_t) (i)] == g_b) && \
-	    (size_t) (i) <= g_n)
+	    BT_GN_LE(i) && BT_NO_END_BELOW(i))
+#ifdef XR_NOGN
+#define BT_GN_LE(i) (1)
+#else
+#define BT_GN_LE(i) ((size_t) (i) <= g_n)
+#endif
 /* ---- outcome-keyed variant (no g_n; used where the 16 body reads of BT_COUNT_REQ do not fit into memory) ----
  * With W = len/4 complete words the three classes are
  *   ACCEPT  : some word n < ttl has the high bit and no earlier one has
